@@ -229,7 +229,9 @@ func (d *ioDelegate) TryCache(h hash.Hash, data []byte) (bool, error) {
 	defer f.Close()
 
 	if _, err := io.Copy(d.outfile, f); err != nil {
-		return false, nil
+		// Part of the entry may have reached the output already: computing
+		// the result now would write it behind that part.
+		return false, err
 	}
 
 	if d.outfile != os.Stdout {
